@@ -14,6 +14,7 @@
   `init`.  Those are covered by the race-detector runs of the check (sampled schedules).
 -/
 import SmsVerif.Props.C12
+import SmsVerif.Gen.Lifecycle
 
 namespace SmsVerif.C13
 open SmsVerif SmsVerif.Own SmsVerif.C12
@@ -283,6 +284,28 @@ theorem C13_buffers_exclusive (todos : List Bytes) (sched : List Nat) (t1 t2 : N
   have hinv := run_sinv sched _ (sinv_init todos)
   exact ⟨hinv.excl t1 t2 th1 th2 l hne h1 h2 ho, (hinv.owned t1 th1 l h1 ho).2⟩
 
+/-! ### the code follows the hand-off protocol of the model (regenerated facts) -/
+
+/-- every pooled writer / reader / stringer the library acquires (172 sites at the pinned commit) is
+    used by one function activation only: never returned, aliased, stored or captured by a closure
+    or a go statement; released at most once, and only by a deferred call (so never before a use) -/
+theorem C13_pool_discipline :
+    Gen.poolUses.all (fun u => !u.escapes && u.directReleases == 0 && decide (u.deferredReleases ≤ 1)) = true := by
+  decide +kernel
+
+/-- objects are handed back to a pool only by the four release functions, once each: no other
+    function (an error path, say) returns a buffer that a deferred Release will return again -/
+theorem C13_put_sites : Gen.poolPuts =
+    [("logger.(*systemLogger).addPrefix", "(*sync.Pool).Put"),
+     ("packet.(*Writer).Release", "github.com/valyala/bytebufferpool.Put"),
+     ("cmpp.Utf8ToUcs2Pooled", "(*github.com/valyala/bytebufferpool.Pool).Put"),
+     ("packet.restoreStringBuilder", "(*sync.Pool).Put")] := by decide +kernel
+
+/-- the copy-out step of the model: `Writer.Bytes` and `Writer.BytesWithLength` return a slice made
+    in the call and filled by `copy`, never the pooled buffer -/
+theorem C13_copy_out : Gen.copyOuts = [("packet.(*Writer).Bytes", true), ("packet.(*Writer).BytesWithLength", true)] := by
+  decide +kernel
+
 /-! ### teeth: returning the buffer before copying out breaks it -/
 
 def runEarly (s : Sys) (sched : List Nat) : Sys := sched.foldl Sys.stepEarlyPut s
@@ -305,3 +328,6 @@ end SmsVerif.C13
 #print axioms SmsVerif.C13.C13_concurrent_equals_sequential
 #print axioms SmsVerif.C13.C13_buffers_exclusive
 #print axioms SmsVerif.C13.step_sinv
+#print axioms SmsVerif.C13.C13_pool_discipline
+#print axioms SmsVerif.C13.C13_put_sites
+#print axioms SmsVerif.C13.C13_copy_out
